@@ -402,7 +402,7 @@ func (t *tr) expr(e ast.Expr) string {
 func (t *tr) isIntegral(e ast.Expr) bool {
 	if tv, ok := t.p.info.Types[e]; ok && tv.Type != nil {
 		if b, ok := tv.Type.Underlying().(*types.Basic); ok {
-			return b.Info()&(types.IsInteger|types.IsBoolean) != 0
+			return b.Info()&(types.IsInteger|types.IsBoolean|types.IsString) != 0
 		}
 	}
 	return false
@@ -1351,6 +1351,18 @@ func main() {
 			g.WriteString(s)
 			done = append(done, name)
 		}
+		// bool-valued readers of *datum: compare_datums (datum.go), checkDatumParams (datum_transform.go)
+		for _, m := range []struct{ file, fn string }{{"datum.go", "compare_datums"}, {"datum_transform.go", "checkDatumParams"}} {
+			fd := find(m.file, m.fn)
+			name := "datum_" + m.fn
+			s, err := t.predicate(name, fd)
+			if err != nil {
+				skipped = append(skipped, name+": "+err.Error())
+				continue
+			}
+			g.WriteString(s)
+			done = append(done, name)
+		}
 		g.WriteString("/-! translated: " + strings.Join(done, ", ") + " -/\n")
 		for _, s := range skipped {
 			g.WriteString("/-! outside the subset (hand-written model): " + strings.ReplaceAll(s, "-/", "- /") + " -/\n")
@@ -1360,7 +1372,7 @@ func main() {
 		// what translated when this tool was written must keep translating: otherwise the tie is broken
 		must := []string{"aeaPhi1z", "Merc_forward", "Merc_inverse", "LCC_forward", "LCC_inverse", "AEA_forward", "AEA_inverse",
 			"EqdC_forward", "EqdC_inverse", "TMerc_forward", "Krovak_forward", "datum_geodetic_to_geocentric",
-			"datum_geocentric_to_wgs84", "datum_geocentric_from_wgs84",
+			"datum_geocentric_to_wgs84", "datum_geocentric_from_wgs84", "datum_compare_datums", "datum_checkDatumParams",
 			"Merc_init", "LCC_init", "AEA_init", "EqdC_init", "TMerc_init", "UTM_init", "Krovak_init"}
 		have := map[string]bool{}
 		for _, d := range done {
